@@ -4,8 +4,11 @@ change3-4 -> second).  Refactoring agents Rxx: _out/refactorN."""
 import glob, json, os, re, subprocess, sys
 from concurrent.futures import ThreadPoolExecutor
 jobs = []
+ONLY = set(sys.argv[1:])     # optional: names of finished agents (B33 R21 ...); default every worktree
 for wt in sorted(glob.glob('/tmp/wt/[BR]*')):
     name = os.path.basename(wt)
+    if ONLY and name not in ONLY:
+        continue
     props = []
     if os.path.exists(wt + '/_props.json'):
         props = json.load(open(wt + '/_props.json'))['props']
